@@ -1021,6 +1021,20 @@ func (h *handler) scenarioScript(ci *connInfo, cb string) {
 				}
 			}
 		}
+	case "error-then-wake", "error-then-edge":
+		if cb == "traffic" {
+			h.doCall(ci, "next", -1, nil, false)
+			if ci.cid == 1 && ci.traffic == 2 {
+				select {
+				case h.inTraffic <- struct{}{}:
+				default:
+				}
+				select {
+				case <-h.release:
+				case <-time.After(3 * time.Second):
+				}
+			}
+		}
 	case "et-backlog":
 		if cb == "traffic" && ci.traffic == 1 {
 			h.doCall(ci, "next", -1, nil, false)
